@@ -126,6 +126,10 @@ def set_prms(pth: Union[str, Path]) -> None:
     yaml = YAML(typ='safe')
     user_prms = yaml.load(pth)
 
+    # An empty file (or one with all its entries commented out) sets no parameter at all
+    if user_prms is None:
+        user_prms = {}
+
     # Now, assign the new prms
     dynamic.AMPYCLOUD_PRMS = utils.adjust_nested_dict(dynamic.AMPYCLOUD_PRMS, user_prms)
 
